@@ -7,7 +7,7 @@ PROP = "C10"
 LEVEL = "exploration"
 SHARDS = {"quick": 8, "thorough": 16}
 TIMEOUT = {"quick": 900, "thorough": 7200}
-REQUIRED = {"bytes_roundtrip": 8000, "string_roundtrip": 3000, "check_decoder": 8000, "check_encoder": 2000}
+REQUIRED = {"bytes_roundtrip": 8000, "string_roundtrip": 3000, "check_decoder": 8000, "check_encoder": 2000, "consumer": 2000}
 ANCHORS = ['helper:encode_base58', 'helper:decode_base58', 'helper:encode_base58_checksum', 'helper:decode_base58_checksum', 'helper:b58decode_addr']
 RULE = ("(i) all lengths 1..128 x leading zero counts 0..len (8256 structured cases, enumerated) + random; (ii) all 58 "
         "single characters, all-'1' strings of length 1..64, random alphabet strings with 0..8 leading '1'; (iii) candidate "
@@ -100,6 +100,32 @@ def judge_check_encoder(ctx, case):
     except Exception as e:  # noqa
         bad.append(("raised", None, e))
     return ctx.judge("check_encoder", not bad, case, None, bad, cls="enc|len%d" % min(len(b), 80), mech="C10.check_encoder." + (bad[0][0] if bad else ""))
+
+
+def judge_consumer(ctx, case):
+    """Entry points that take a Base58Check string (WIF import, extended-key parse, wallet import, address payload):
+    a string the reference classifier refuses (bad character / too short / checksum mismatch) must be refused by each
+    of them as well - a consumer with its own decoding path must not be more lenient than the checksummed decoder."""
+    import btc_hd_wallet.helper as h
+    from btc_hd_wallet.keys import PrivateKey
+    from btc_hd_wallet.bip32 import PrvKeyNode, PubKeyNode
+    from btc_hd_wallet.base_wallet import BaseWallet
+    s, kind = case["s"], case["kind"]
+    ref_kind, payload = rb58.classify_check(s) if all(ord(c) < 128 for c in s) else ("badchar", None)
+    if ref_kind == "valid":
+        return None
+    consumers = {"wif": [("PrivateKey.from_wif", lambda: bytes(PrivateKey.from_wif(s)))],
+                 "xprv": [("PrvKeyNode.parse", lambda: PrvKeyNode.parse(s).chain_code), ("BaseWallet.from_extended_key", lambda: BaseWallet.from_extended_key(s).testnet)],
+                 "xpub": [("PubKeyNode.parse", lambda: PubKeyNode.parse(s).chain_code), ("BaseWallet.from_extended_key", lambda: BaseWallet.from_extended_key(s).testnet)],
+                 "addr": [("b58decode_addr", lambda: h.b58decode_addr(s))]}[kind]
+    for name, fn in consumers:
+        try:
+            r = fn()
+            ok, obs = False, r
+        except Exception as e:  # noqa
+            ok, obs = True, e
+        ctx.judge("consumer", ok, dict(case, consumer=name), "raise (%s)" % ref_kind, obs, cls="cons|%s|%s|%s" % (name, case.get("tag", ""), ref_kind),
+                  outcome="raised" if ok else "accepted", mech="C10.consumer.%s.accepted_%s" % (name, ref_kind))
 
 
 def mutate(rnd, s):
@@ -206,6 +232,25 @@ def run(ctx):
                 ctx.extra["raw_decoder_accepted_non_alphabet"] = ctx.extra.get("raw_decoder_accepted_non_alphabet", 0) + 1
             except Exception:  # noqa
                 ctx.extra["raw_decoder_refused_non_alphabet"] = ctx.extra.get("raw_decoder_refused_non_alphabet", 0) + 1
+    # consumers with their own entry point: WIF (4 flavours), extended keys (12 versions), addresses
+    from ..ref import bip32 as rb32x
+    for _ in range(ctx.scale(700, 80000)):
+        kind = rnd.choice(["wif", "wif", "xprv", "xpub", "addr"])
+        if kind == "wif":
+            k = rnd.randrange(1, rb32x.secp.N)
+            valid = rb58.encode_check(bytes([rnd.choice([0x80, 0xEF])]) + k.to_bytes(32, "big") + rnd.choice([b"\x01", b""]))
+        elif kind in ("xprv", "xpub"):
+            xk = rb32x.XKey(rnd.randrange(1, rb32x.secp.N), None, gen.rbytes(rnd, 32))
+            ver = rnd.choice([v for (t, n_, p), v in rb32x.SLIP132.items() if t == kind[1:]])
+            valid = xk.xprv(ver) if kind == "xprv" else xk.xpub(ver)
+        else:
+            valid = rb58.encode_check(bytes([rnd.choice([0x00, 0x05, 0x6F, 0xC4])]) + gen.rbytes(rnd, 20))
+        for _k in range(3):
+            tag, s_ = mutate(rnd, valid)
+            if s_:
+                judge_consumer(ctx, {"s": s_, "kind": kind, "tag": tag})
+        for pre in ("1", "11", "111"):
+            judge_consumer(ctx, {"s": pre + valid, "kind": kind, "tag": "prefix1"})
     # raw (non-checksummed) encodings fed to the checksummed decoder, incl. short ones
     for _ in range(ctx.scale(600, 60000)):
         ln = rnd.choice([1, 2, 3, 4, 5, 8, 25])
@@ -265,5 +310,8 @@ def run(ctx):
 
 
 def replay(ctx, monitor, case):
+    if monitor == "consumer":
+        case.pop("consumer", None)
+        return judge_consumer(ctx, case)
     {"bytes_roundtrip": judge_bytes_roundtrip, "string_roundtrip": judge_string_roundtrip,
      "check_decoder": judge_check_decoder, "check_encoder": judge_check_encoder}[monitor](ctx, case)
